@@ -261,7 +261,9 @@ impl InnerFilter {
     }
 
     fn progress_filtertime(&mut self, time: Time, wander: f64, config: &KalmanConfiguration) {
-        debug_assert!(time >= self.filter_time);
+        // The clock may report a time before the last measurement's event time
+        // (e.g. an event time moved ahead by a negative correction field); the
+        // filter simply does not move backwards then.
         if time < self.filter_time {
             return;
         }
